@@ -67,7 +67,8 @@ static Boolean DecodeReg(char* Asc, LongWord* Code, TReg* Regs, int Cnt) {
     int z;
 
     for (z = 0; z < Cnt; z++) {
-        if (!as_strcasecmp(Asc, Regs[z].Name)) {
+        /* the uPD7720's unused destination code has an empty name */
+        if (*Regs[z].Name && !as_strcasecmp(Asc, Regs[z].Name)) {
             break;
         }
     }
